@@ -246,7 +246,9 @@ DeleteRetMonitors(r, c) ==
        If(r.panic /\ ~r.crashed, {<<"Panic", r.pmsg>>})
   \cup If(r.timeout, {<<"Hang", "delete">>})
   \cup If(c.dry /\ ~r.crashed /\ g.mode # "conc" /\ fs # c.fs0, {<<"DryRunChanged", 0>>})
-  \cup If(r.res \in {"err:DeleteWithIncompleteBackup", "err:GarbageCollectionLockHeld"} /\ ~c.injected /\ g.mode # "conc" /\ fs # c.fs0,
+  \* (--break-lock removes the stale lock before the refusal can happen: that much was asked for)
+  \cup If(r.res \in {"err:DeleteWithIncompleteBackup", "err:GarbageCollectionLockHeld"} /\ ~c.injected /\ g.mode # "conc"
+             /\ (IF c.brk THEN [fs EXCEPT !.lock = FALSE] # [c.fs0 EXCEPT !.lock = FALSE] ELSE fs # c.fs0),
           {<<"RefusedDeleteChanged", r.res>>})
   \cup If(r.res = "ok" /\ ~c.dry /\ ~r.crashed /\ g.mode # "conc",
              If(Bands(fs) # Bands(c.fs0) \ D, {<<"DeleteWrongBands", 0>>})
@@ -322,7 +324,10 @@ RestoreMonitors(r) ==
         subtreeIsDir == ~r.has_subtree \/ es = <<>> \/ \E e \in SeqRange(es) : e.p = S /\ e.k = "Dir"
         \* (a version half removed by a killed delete, or one stitched onto it, is not judged)
         judged == b # -1 /\ HeadOK(fs, b) /\ ~g.damaged /\ r.dest # "nonempty" /\ ConsistentBelow(es, S) /\ subtreeIsDir
-                  /\ ~\E x \in g.torn : x <= b
+                  /\ ~(\E x \in g.torn : x <= b)
+                  \* (nor is the choice of "latest" while such a leftover exists: a head-less directory that
+                  \* still has its tail is taken for a damaged complete version and reported, deliberately)
+                  /\ (r.band # -1 \/ g.torn = {})
         \* the destination directory itself always exists; it only counts when the
         \* listing has an entry for the root
         T1  == IF \E e \in SeqRange(es) : e.p = Root THEN T0
@@ -335,7 +340,7 @@ RestoreMonitors(r) ==
   \cup If(r.timeout, {<<"Hang", "restore">>})
   \cup If(~r.outside_unchanged, {<<"RestoreEscaped", 0>>})
   \cup If(r.dest = "nonempty" /\ ~r.overwrite /\ (r.res = "ok" \/ ~r.dest_unchanged), {<<"ClobberedDestination", r.res>>})
-  \cup If(r.band = -1 /\ ~g.damaged /\ lc # -1 /\ lc \notin g.torn /\ (r.res # "ok" \/ r.picked # lc), {<<"LatestWrong", <<r.picked, lc>> >>})
+  \cup If(r.band = -1 /\ ~g.damaged /\ lc # -1 /\ g.torn = {} /\ (r.res # "ok" \/ r.picked # lc), {<<"LatestWrong", <<r.picked, lc>> >>})
   \* (an unreadable head met while stitching is legitimately grumbled about)
   \cup If(judged /\ AllReadable(fs, es) /\
              (r.res # "ok" \/ r.picked # b \/
